@@ -1,5 +1,6 @@
 ------------------------------- MODULE MC_C16 -------------------------------
 EXTENDS AsyncWriter, Json
+Unbounded == -1
 ValsA == <<1, -1, 3, 2, 0>>       \* value 2 fails to encode, value 3 exceeds MaxLen = 2
 ValsB == <<2, 1, 2>>
 ValsC == <<0, 3, -1, 1>>
